@@ -20,6 +20,15 @@ CHECKS = {
     "C13": ("exploration", "set-membership oracle over the registry matrix + configparser read-back + audit hook", "registry",
             "validation matrix exhaustive over (platforms + near misses) x (all registered boards + near misses); random projects read back and byte-compared",
             "ports without edge whitespace/newlines; configparser(interpolation=None) is the standard INI parser"),
+    "C11": ("exploration", "sys.addaudithook event monitor + canaries + CPU-time budget + exception-type monitor in child processes", "audit",
+            "every input (supported scripts, position x hostile payload product, arbitrary Python, noise) is transpiled under an audit hook with a whitelist of compile-to-AST only; canary files, environment, module state and CPU budget are checked after each call",
+            "audit events are the observation channel for file/process/network/import/exec activity; CPU seconds (not wall time) decide promptness"),
+    "C19": ("exploration", "icontract class invariants on the real classes + atomicity snapshots + sleep ledger under random operation histories", "contracts",
+            "the statement's clauses are asserted after every public call of random histories with in-range, boundary, out-of-range and odd scalar arguments; raising calls are compared against a pre-call snapshot",
+            "single-threaded per object; NaN excluded; sleep observed through the package-level sleep indirection"),
+    "C20": ("exploration", "reference-model monitors (dict pin memory, exact rational affine map, edge counter, fake serial backend) in lock-step with the real functions", "contracts",
+            "small executable models compared with the real helpers on random interleavings and value grids",
+            "Core's module-global dicts are cleared (and the clearing asserted) before each history"),
 }
 
 NOT_YET = {}
